@@ -65,6 +65,8 @@ inductive Input
   | objArr (xs : List Elem)
   /-- `numpy.ndarray` of any other dtype (`float64`, `bool_`, `bytes_`, …) of that length -/
   | otherArr (len : Nat)
+  /-- a 0-dimensional `numpy.ndarray` (of any dtype) holding that element: it has no `len()` -/
+  | scalarArr (x : Elem)
   deriving DecidableEq, Repr
 
 /-- `len(array)` -/
@@ -75,6 +77,7 @@ def Input.len : Input → Nat
   | .strArr ss => ss.length
   | .objArr xs => xs.length
   | .otherArr n => n
+  | .scalarArr _ => 1     -- never read: `len()` of a 0-d array raises before anything else
 
 /-! ## Guards (`_guards.py`) -/
 
@@ -197,6 +200,7 @@ def encodeArr (e : Enumeration) : Input → Except String EnumArray
 def encode (e : Enumeration) (x : Input) : Except String EnumArray :=
   match x with
   | .encoded a => .ok a                                   -- isinstance(array, EnumArray)
+  | .scalarArr _ => .error "TypeError"                    -- len() of unsized object
   | _ =>
     if x.len = 0 then .ok ⟨e.cid, []⟩                     -- len(array) == 0
     else match x with
@@ -212,6 +216,22 @@ def decode (e : Enumeration) (a : EnumArray) : Except String (List Elem) :=
 
 def decodeToStr (e : Enumeration) (a : EnumArray) : Except String (List String) :=
   allOk (fun i => match e.names[i]? with | some s => .ok s | none => .error "IndexError") a.idx
+
+/-- one selected position -/
+def pick (idx : List Nat) (p : Nat) : Except String Nat :=
+  match idx[p]? with
+  | some i => .ok i
+  | none => .error "IndexError"
+
+/-- Re-indexing an `EnumArray` through the ndarray API (`a[positions]`; a slice, a boolean
+mask, `a[::-1]`, `take`, `repeat`, `copy`, `view` are the same thing with the positions they
+select): the result is an `EnumArray` of the same enumeration (`__array_finalize__` copies
+`possible_values`) holding the selected indices. Positions are non-negative; one outside the
+array is numpy's `IndexError`. -/
+def EnumArray.take (a : EnumArray) (positions : List Nat) : Except String EnumArray :=
+  match allOk (pick a.idx) positions with
+  | .error m => .error m
+  | .ok idx => .ok ⟨a.owner, idx⟩
 
 /-! ## Specification vocabulary (used by `Props/C15.lean`) -/
 
@@ -252,6 +272,7 @@ def Input.elems : Input → List Elem
   | .strArr ss => ss.map Elem.str
   | .objArr xs => xs
   | .otherArr n => List.replicate n Elem.other
+  | .scalarArr x => [x]
 
 /-- all elements are of one kind (int / str / Enum instance / other) -/
 def SameKind (xs : List Elem) : Prop := ∀ x ∈ xs, ∀ y ∈ xs, x.kind = y.kind
@@ -288,7 +309,7 @@ def Input.NotForeignArray (e : Enumeration) : Input → Prop
 container is never refused; otherwise a *sequence* is refused iff some element designates no
 member or the kinds are mixed, a typed numpy array iff some element designates no member, an
 object array iff some element is not an instance of the class, an array of any other dtype
-always. -/
+always, a 0-dimensional array always (whatever it holds). -/
 def Input.Rejected (e : Enumeration) : Input → Prop
   | .encoded _ => False
   | .seq xs => xs ≠ [] ∧ ((∃ x ∈ xs, ¬ x.Designates e) ∨ ¬ SameKind xs)
@@ -296,6 +317,7 @@ def Input.Rejected (e : Enumeration) : Input → Prop
   | .strArr ss => ∃ s ∈ ss, s ∉ e.names
   | .objArr xs => ∃ x ∈ xs, x.kind ≠ .enum ∨ ¬ x.Designates e
   | .otherArr n => n ≠ 0
+  | .scalarArr _ => True
 
 instance (e : Enumeration) (x : Input) : Decidable (x.NotForeignArray e) := by
   cases x <;> unfold Input.NotForeignArray <;> infer_instance
